@@ -143,7 +143,14 @@ class Check:
     def triage(self, viol, is_known=None, describe=None):
         """replay solver models; confirmed ones become violations unless matched by a known finding.
         is_known(v) -> finding id or None (concrete signature check on the model values)"""
+        seen_keys = {}
         for v in viol:
+            key = (v.get('known_id'), v['name'])
+            seen_keys[key] = seen_keys.get(key, 0) + 1
+            if seen_keys[key] > (1 if v.get('known_id') else 3):
+                if not v.get('known_id'):
+                    self.extra['further_violation_models_not_replayed'] = self.extra.get('further_violation_models_not_replayed', 0) + 1
+                continue
             outcome, path = self.replay(v['harness'], v['model'], v.get('params'))
             v['replay'] = path
             v['replay_outcome'] = outcome
@@ -152,7 +159,7 @@ class Check:
                 self.unconfirmed.append(v)
                 self.inconclusive.append({'why': 'solver model did not reproduce natively (%s): %s %s' % (outcome, v['name'], path), 'harness': v['harness']})
                 continue
-            kid = is_known(v) if is_known else None
+            kid = v.get('known_id') or (is_known(v) if is_known else None)
             if kid:
                 if kid not in [k['id'] for k in self.known_seen]:
                     self.known_seen.append({'id': kid, 'replay': path, 'outcome': outcome[:200]})
@@ -214,6 +221,9 @@ class Check:
         return 1 if self.violations else 0
 
     def cleanup(self):
+        import glob
+        for d in glob.glob('/tmp/verif-replay-*'):
+            shutil.rmtree(d, ignore_errors=True)
         shutil.rmtree(self.scratch, ignore_errors=True)
         shutil.rmtree(self.ovdir, ignore_errors=True)
         try:
